@@ -79,6 +79,8 @@ def gen(chk):
     for _ in range(40 if not thorough else 300):
         fam, m, edges = G.random_dag(rng, 8, 16 if not thorough else 40)
         graphs.append((fam + ':large', G.label(edges, G.pick_labels(rng, m))))
+    # one dense graph: more than 255 edges on 24 nodes
+    graphs.append(('dense', G.dense_graph(rng, 24)))
     return graphs
 
 
